@@ -328,7 +328,18 @@ func (x *Exec) lookupHeap(st *State, key, sort string) Val {
 	if v, ok := st.heap[key]; ok {
 		return v
 	}
-	return x.initialHeap(st, key, sort)
+	v := x.initialHeap(st, key, sort)
+	// a part of the state first touched AFTER everything was havocked on this path (a call with unknown or
+	// "modifies *" effect) is not the entry state any more: it gets a fresh, unconstrained value
+	if _, hv := st.heap["#epoch"]; hv && key != "top" && !strings.HasPrefix(key, "#") {
+		nv := Val{T: x.vc.fresh("hv_"+sanitize(key[2:]), v.Sort), Sort: v.Sort, GoT: v.GoT}
+		if v.Set != nil {
+			nv = x.wrapSet(nv, v.SetElem)
+		}
+		st.heap[key] = nv
+		return nv
+	}
+	return v
 }
 
 func (x *Exec) deref(st *State, ptr Val, elemT types.Type) Val {
@@ -780,6 +791,19 @@ func (x *Exec) execStmt(st *State, s ast.Stmt, label string) *flow {
 	case *ast.SendStmt:
 		x.ev(st, s.Value)
 		x.vc.note("channel send dropped")
+		if x.contract != nil && len(x.inRes) == 0 {
+			key := "send:" + strings.Join(strings.Fields(x.prog.text(s.Chan)), "")
+			for i, ca := range x.contract.CallAsserts[key] {
+				env := x.specEnvAt(st, s.Pos())
+				for j, cj := range x.prog.expandConj(ca.Expr, 0) {
+					cls := fmt.Sprintf("send@%s.%d", x.prog.text(s.Chan), i+1)
+					if j > 0 {
+						cls += fmt.Sprintf(".%d", j+1)
+					}
+					x.assert(st, cls, env.boolean(cj), "at every send on "+x.prog.text(s.Chan)+": "+exprText(cj), s.Pos())
+				}
+			}
+		}
 		out.normal = st
 	default:
 		panic(unsupported(fmt.Sprintf("statement %T", s)))
